@@ -73,7 +73,7 @@ def decode_bstr(lit):
     return out
 
 
-def apply_core_rules(text, log, where, keep_pub=False):
+def apply_core_rules(text, log, where, keep_pub=False, keep_derive=()):
     """R1 (attrs/docs/pub), R2 (to_be_bytes), R3 (byte strings), R4 (assert_invariant!)."""
     toks = lex(text)
     out = []
@@ -109,7 +109,9 @@ def apply_core_rules(text, log, where, keep_pub=False):
                 a = norm_ws(attr)
                 md = re.match(r'#\[derive\((.*)\)\]$', a)
                 if md:
-                    keep = [x.strip() for x in md.group(1).split(',') if x.strip() in ('Clone', 'Copy')]
+                    keep = [x.strip() for x in md.group(1).split(',') if x.strip() in ('Clone', 'Copy') or x.strip() in keep_derive]
+                    if 'PartialEq' in keep and 'Eq' in keep:
+                        keep.append('Structural')   # derived PartialEq is structural equality
                     if keep:
                         out.append('#[derive(%s)]' % ', '.join(keep))
                     log.append(('R1', where, 'derive reduced to [%s]: %s' % (', '.join(keep), a[:70])))
@@ -321,6 +323,47 @@ def rule_R9(text, log, where):
     log.append(('R9', where, 'diagnostic closure dropped; %d AdtsValidationError literals -> v_adts_error(kind)' % (len(cuts) - 1)))
     return ''.join(out)
 
+
+def rule_R14(text, log, where):
+    """`fn f(mut self, ..) { B }` -> `fn f(self, ..) { let mut v_self = self; B[self := v_self] }` (Verus has no `mut self`)."""
+    toks = lex(text)
+    sig = sig_tokens(toks)
+    # locate `mut self` in the parameter list
+    k = None
+    for i in range(len(sig) - 1):
+        if sig[i].kind == 'ident' and sig[i].text == 'mut' and sig[i + 1].text == 'self':
+            k = i
+            break
+    if k is None:
+        raise ExtractError('R14: no `mut self` in ' + where)
+    # body open
+    j = 0
+    while j < len(sig):
+        if sig[j].text in ('(', '['):
+            j = match_close(sig, j) + 1
+            continue
+        if sig[j].text == '{':
+            break
+        j += 1
+    body_open = sig[j]
+    out = []
+    pos = 0
+    for t in sig:
+        if t is sig[k]:
+            out.append(text[pos:t.start])
+            pos = sig[k + 1].start      # drop `mut `
+        elif t.start > body_open.start and t.kind == 'ident' and t.text == 'self':
+            out.append(text[pos:t.start])
+            out.append('v_self')
+            pos = t.end
+        elif t is body_open:
+            out.append(text[pos:t.end])
+            out.append(' let mut v_self = self;')
+            pos = t.end
+    out.append(text[pos:])
+    log.append(('R14', where, '`mut self` parameter rebound to local v_self'))
+    return ''.join(out)
+
 def rule_R5(text, log, where):
     """method of `impl Iterator for T` is emitted as inherent method: Self::Item -> concrete type given by template."""
     return text
@@ -364,9 +407,11 @@ def splice_function(src_text, spec, log, where):
             text = rule_R6(text, int(r[1]), r[2] if len(r) > 2 else 'it', log, where)
         elif rid == 'R7':
             text = rule_R7(text, int(r[1]), log, where)
+        elif rid == 'R14':
+            text = rule_R14(text, log, where)
         elif rid == 'R9' and len(r) == 1:
             text = rule_R9(text, log, where)
-        elif rid in ('R5', 'R8', 'R9', 'R10', 'R11', 'R12', 'R13'):
+        elif rid in ('R5', 'R8', 'R9', 'R10', 'R11', 'R12', 'R13', 'R15'):
             # //@ rule R9 <<old>> ==> <<new>>
             body = ' '.join(r[1:])
             m = re.match(r'<<(.*)>>\s*==>\s*<<(.*)>>\s*(\d*)$', body, re.S)
@@ -376,6 +421,19 @@ def splice_function(src_text, spec, log, where):
         else:
             raise ExtractError('unknown rule %s for %s' % (rid, where))
 
+    if spec.get('vacuity') and os.environ.get('VERIF_VACUITY_TWIN'):
+        # vacuity guard: the twin of this function gets `ensures false` and MUST be rejected by the verifier
+        newspec = []
+        done = False
+        for l in spec['spec']:
+            if not done and re.search(r'\bensures\b', l):
+                l = re.sub(r'\bensures\b', 'ensures false, /*VACUITY*/', l, count=1)
+                done = True
+            newspec.append(l)
+        if not done:
+            newspec.append('        ensures false, /*VACUITY*/')
+        spec = dict(spec)
+        spec['spec'] = newspec
     sig, loops = find_loops(text)
     # function body open: first '{' at depth 0 after params
     k = 0
@@ -551,7 +609,11 @@ def parse_template(path):
                 elif cmd == 'mode':
                     item['mode'] = arg
                 elif cmd == 'vacuity':
-                    pass
+                    item['vacuity'] = True
+                elif cmd == 'keepderive':
+                    item['keepderive'] = arg.split()
+                elif cmd == 'keeppub':
+                    item['keeppub'] = True
                 elif cmd == 'specfile':
                     sp = os.path.join(os.path.dirname(os.path.dirname(os.path.abspath(__file__))), arg)
                     item['spec'].extend(open(sp).read().rstrip('\n').split('\n'))
@@ -629,9 +691,11 @@ def build_unit(template, repo, out_rs, out_map):
         if item['kind'] == 'fn':
             olines, rewritten = splice_function(text, item, log, where)
         else:
-            t2 = apply_core_rules(text, log, where, keep_pub=(item['kind'] == 'mod'))
+            t2 = apply_core_rules(text, log, where, keep_pub=(item['kind'] == 'mod'), keep_derive=tuple(item.get('keepderive', ())))
             if item['kind'] == 'mod':
                 t2 = re.sub(r'^pub\s+', '', t2)
+            if item.get('keeppub'):
+                t2 = re.sub(r'\b(struct|enum)\b', r'pub \1', t2, count=1)
             for r in item['rules']:
                 body = ' '.join(r[1:])
                 m = re.match(r'<<(.*)>>\s*==>\s*<<(.*)>>\s*(\d*)$', body, re.S)
